@@ -142,6 +142,27 @@ def coq_check_props(pid, workdir):
     return dict(ok=ok, theorems=theorems, output=out, rc=rc, names=names)
 
 
+def props_pin(pid):
+    """hash of Props/<pid>.v with comments and whitespace removed (the pinned statements)"""
+    src = os.path.join(COQ, "Props", pid + ".v")
+    if not os.path.exists(src):
+        return None
+    body = re.sub(r"\s+", "", strip_comments(open(src).read()))
+    return hashlib.sha256(body.encode()).hexdigest()
+
+
+def props_pin_check(pid):
+    """(ok, message): the property file is the pinned one (coq/props.pinned.json, committed)"""
+    f = os.path.join(COQ, "props.pinned.json")
+    if not os.path.exists(f):
+        return False, "coq/props.pinned.json is missing"
+    pins = json.load(open(f))
+    h = props_pin(pid)
+    if pins.get(pid) != h:
+        return False, "Props/%s.v differs from its pinned statements (pinned %s, found %s)" % (pid, pins.get(pid), h)
+    return True, ""
+
+
 def coq_dep_cone(pid):
     """Files in the dependency cone of Props/<pid>.v and the number of proved statements in them."""
     rc, out = sh(["coqdep"] + coq_flags() + coq_sources(), cwd=COQ)
